@@ -1058,7 +1058,9 @@ def run_c13(ctx):
     for (lo, hi) in [(-10, 10), (0, 1), (0, 2), (5, 5), (7, 3), (-2147483648, 2147483647), (3, 4)]:
         # the last intervals are a few ulps wide: a generator that rounds can return the excluded upper bound
         for (flo, fhi) in [(-1.0, 1.0), (0.0, 0.5), (2.0, 2.0), (3.0, -3.0), (-0.0, 0.0), (16777216.0, 16777218.0),
-                           (1.0, 1.0000001192092896), (-16777218.0, -16777216.0), (1000000.0, 1000000.25), (0.0, 1e-45)]:
+                           (1.0, 1.0000001192092896), (-16777218.0, -16777216.0), (1000000.0, 1000000.25), (0.0, 1e-45),
+                           # intervals wider than the largest float, and infinite bounds (no uniform value exists: nothing, never a crash)
+                           (-3.4028234663852886e38, 3.4028234663852886e38), (-3e38, 3e38), (float("-inf"), 1.0), (0.0, float("inf")), (float("-inf"), float("inf"))]:
             st = gen.empty_state(); st["cfg"].update(min_i=lo, max_i=hi, min_f=fb(flo), max_f=fb(fhi))
             o = [{"m": "random_integer", "args": [lo, hi]} for _ in range(draws)] + [{"m": "random_float", "args": [fb(flo), fb(fhi)]} for _ in range(draws)]
             o.append({"m": "random_float_many", "args": [fb(flo), fb(fhi), 200]})
@@ -1082,7 +1084,8 @@ def run_c13(ctx):
         if g.r.random() < 0.5:
             s["cfg"]["new_name_p"] = fb(g.r.choice([0.5, 1.0, 0.0, 0.9]))
         if g.r.random() < 0.2:
-            s["cfg"]["min_f"], s["cfg"]["max_f"] = g.r.choice([(fb(16777216.0), fb(16777218.0)), (fb(1.0), fb(1.0000001192092896)), (fb(-2.0), fb(-1.9999998))])
+            s["cfg"]["min_f"], s["cfg"]["max_f"] = g.r.choice([(fb(16777216.0), fb(16777218.0)), (fb(1.0), fb(1.0000001192092896)), (fb(-2.0), fb(-1.9999998)),
+                                                               (fb(-3.4028234663852886e38), fb(3.4028234663852886e38)), (fb(float("-inf")), fb(2.0)), (fb(-3e38), fb(float("inf")))])
         cs.append({"id": "randins-%05d" % i, "pre": s, "acts": [{"a": "step"}]})
     run_events(ctx, "rand_instructions", cs)
 
